@@ -30,6 +30,7 @@ typedef struct dev_shared {
     int ntasks;
     dev_task_desc_t tasks[DEV_MAX_TASKS];
     int ndev;
+    int flush_after_wait;         /* 1: taskpool_wait, then flush_all, then wait again (steered modes); 0: flush_all inserted with the tasks */
     /* results */
     int64_t final_[DEV_MAX_TILES][DEV_MAX_ELEMS];
     int final_valid[DEV_MAX_TILES];
